@@ -281,7 +281,8 @@ def tree_hash(extra=(), pid=None):
 def build_harness(race=False, instrument=False, timeout=900, pid=None):
     """Returns (path to test binary or None, log). Library sources are the working tree of /repo; the repository's own
     _test.go files are excluded; harness files are added as zz_verif_*_test.go through -overlay (nothing is written to /repo)."""
-    key = tree_hash(pid=pid) + ("-race" if race else "") + ("-instr" if instrument else "")
+    extra = sorted(glob.glob(os.path.join(HARNESS, "cmd", "instr", "*.go"))) if instrument else []
+    key = tree_hash(extra=extra, pid=pid) + ("-race" if race else "") + ("-instr" if instrument else "")
     d = os.path.join(CACHE, "harness-" + key)
     exe = os.path.join(d, "verif.test")
     if os.path.exists(exe):
@@ -298,6 +299,10 @@ def build_harness(race=False, instrument=False, timeout=900, pid=None):
         if f.endswith("_test.go"):
             replace[f] = ""
     if instrument:
+        okt, outt = build_tools()
+        if not okt:
+            shutil.rmtree(d, ignore_errors=True)
+            return None, "building the instrumenter failed:\n" + outt
         idir = os.path.join(d, "instr")
         os.makedirs(idir, exist_ok=True)
         rc, out = sh([os.path.join(CACHE, "tools", "instr"), "-out", idir] + [f for f in repo_go_files() if not f.endswith("_test.go")],
